@@ -26,4 +26,12 @@ c_Orders == {"le"}
 c_PropNames == {}
 c_PropVals == {}
 c_Forbidden == {}
+\* order x properties: which listed objects carry a property must not influence the order of first appearance
+c_ObjListsP == {<<A, B, C>>, <<C, B, A>>, <<R, G1, G2, A, B, C>>, <<C, A, G2, B>>, <<G2, G1, C, A>>, <<B, A, R>>,
+                <<G2, G1>>, <<B>>, <<G1, C>>}
+c_ObjListsPQ == {<<A, B, C>>, <<C, A, G2, B>>, <<G2, G1, C, A>>, <<B, A, R>>}
+c_PropNamesP == {"p1"}
+c_PropValsP == {"v1"}
+c_NValsP == {1}
+c_KValsP == {1}
 ====
